@@ -33,6 +33,8 @@ type WeightedMerkleTrie struct {
 	// number of leading tempDeleted entries that were superseded by a committed state
 	tempDeletedCommitted int
 	created              [][]byte
+	// hashes of all nodes the running commit saves (created holds those that are new in storage)
+	saved [][]byte
 	sync.Mutex
 }
 
@@ -593,11 +595,13 @@ func (t *WeightedMerkleTrie) commit(node Node, batcher storage.Batcher, collapse
 // and created again with identical content (delete and re-add, update and
 // update back) is live.
 func (t *WeightedMerkleTrie) dropCreatedFromTempDeleted() {
-	if len(t.tempDeleted) == 0 || len(t.created) == 0 {
+	saved := t.saved
+	t.saved = nil
+	if len(t.tempDeleted) == 0 || len(saved) == 0 {
 		return
 	}
-	created := make(map[string]struct{}, len(t.created))
-	for _, hash := range t.created {
+	created := make(map[string]struct{}, len(saved))
+	for _, hash := range saved {
 		created[string(hash)] = struct{}{}
 	}
 	kept := t.tempDeleted[:0]
@@ -624,6 +628,7 @@ func commonPrefix(a, b []byte) int {
 
 func (t *WeightedMerkleTrie) collectDeleteAndCreated(deleteChan, createdChan chan []byte, wg *sync.WaitGroup) {
 	t.created = nil
+	t.saved = nil
 	wg.Add(2)
 	go func() {
 		for hash := range deleteChan {
@@ -639,6 +644,13 @@ func (t *WeightedMerkleTrie) collectDeleteAndCreated(deleteChan, createdChan cha
 			var k [32]byte
 			copy(k[:], hash)
 			delete(t.deleted, k)
+			t.saved = append(t.saved, hash)
+			// a node that is already in storage (the batch is not written yet) is not
+			// created by this commit: it belongs to an earlier state, which a
+			// rollback of this commit must leave intact
+			if _, err := t.db.Get(hash); err == nil {
+				continue
+			}
 			t.created = append(t.created, hash)
 		}
 		wg.Done()
